@@ -684,7 +684,8 @@ def std_kind_cases(rng):
     in a union before / after str, as a dataclass field.  (term, value) pairs."""
     import terms
     out = []
-    for kind in ('decimal', 'fraction', 'datetime', 'date', 'time', 'path', 'pathlike', 'pattern', 'pattern_str', 'pattern_bytes'):
+    for kind in ('decimal', 'fraction', 'datetime', 'date', 'time', 'path', 'pathlike', 'pattern', 'pattern_str', 'pattern_bytes',
+                 'enum_tuple', 'enum_complex', 'enum_limit', 'vol_int', 'vol_tuple', 'vol_list', 'vol_range'):
         term = ('std', kind)
         holder = {'name': terms.fresh_name('Std'), 'fields': [{'name': 'v', 'ty': term}, {'name': 'n', 'ty': ('scalar', 'int'), 'default': ('value', 0)}], 'opts': {}, 'hook': None}
         for v in STD_POOL[kind]:
